@@ -275,3 +275,81 @@ Proof.
     apply str_eqb_eq in En. subst nm. cbn [below] in Hb. lia. }
   vm_compute in E. discriminate E.
 Qed.
+
+(* ======================= closures: what is false ======================= *)
+(* libfull2 = libfull + systemPartial closures.  A closure is the function value FLib [0; l]; calling it fetches the hidden
+   array l = [func; bound args] and calls func.  In a world where the hidden array 0 holds ITS OWN closure - no run from
+   an empty heap builds it (the hidden array is allocated before the closure value exists and no script value refers to
+   it), but it is a world - the call never comes back: at every fuel the answer of the tower is its depth-0 answer.  So
+   the termination statement, which holds for libfull in EVERY world, is false for libfull2 over arbitrary worlds, and
+   NO measure makes lib_wf true of libfull2. *)
+Definition forged_pv : value := VFun (FLib (partial_name 0)).
+Definition forged_world : world := upd_arrs (upd_globals (world0 []) [(U "p", forged_pv)]) [[forged_pv]].
+Definition forged_prog : script := [SReturn (Some (ECall (U "p") []))].
+Definition forged_cfg : config := mkcfg 10 false true.
+
+Definition passes (bot : outcome) : Prop := match bot with OFuel | OVal _ => True | _ => False end.
+
+Lemma forged_call_loops bot : passes bot -> forall f um w, get_arr w 0 = [forged_pv] ->
+  callB forged_cfg (libfull2 forged_cfg) no_url no_lint bot f forged_pv [] um w = (bot, w).
+Proof.
+  intros Hb. induction f as [|f IH]; intros um w Hg; [reflexivity|].
+  change (callB forged_cfg (libfull2 forged_cfg) no_url no_lint bot (S f) forged_pv [] um w)
+    with (call_body (libfull2 forged_cfg)
+            (fun fv' a' um' w' => callB forged_cfg (libfull2 forged_cfg) no_url no_lint bot f fv' a' um' w')
+            (fun c' p' k' l' um' w' => execB forged_cfg (libfull2 forged_cfg) no_url no_lint bot f c' p' k' l' um' w')
+            forged_pv [] um w).
+  unfold call_body, forged_pv at 1.
+  change (libfull2 forged_cfg (fun fv' a' w' => callB forged_cfg (libfull2 forged_cfg) no_url no_lint bot f fv' a' um w') (partial_name 0) [] w)
+    with (lib_partial_call (fun fv' a' w' => callB forged_cfg (libfull2 forged_cfg) no_url no_lint bot f fv' a' um w') 0 [] w).
+  unfold lib_partial_call. rewrite Hg. cbv beta iota. cbn [app]. rewrite (IH um w Hg).
+  destruct bot; try reflexivity; destruct Hb.
+Qed.
+
+Definition forged_w1 : world := upd_count (upd_globals forged_world (inject_library (w_globals forged_world))) 0.
+Definition forged_w2 : world := upd_count forged_w1 1.
+
+Lemma forged_step (ev' ev : evalT) (cl : callT) (ex : execT) o :
+  (forall e loc bi um w, ev' e loc bi um w = eval_body forged_cfg ev cl e loc bi um w) ->
+  cl forged_pv [] UHost forged_w2 = (o, forged_w2) -> passes o ->
+  exec_body forged_cfg no_url no_lint ev' ex forged_prog 0%nat [] None UHost forged_w1 = (o, None, forged_w2).
+Proof.
+  intros Hev Hcl Ho. vm_compute. rewrite Hev. vm_compute. vm_compute in Hcl. rewrite Hcl. destruct o; try reflexivity; destruct Ho.
+Qed.
+
+Lemma forged_run bot k : passes bot ->
+  execute_script_bot forged_cfg (libfull2 forged_cfg) no_url no_lint bot (3 + k) forged_prog forged_world = (bot, forged_w2).
+Proof.
+  intros Hb. unfold execute_script_bot. cbv zeta. fold forged_w1.
+  change (execB forged_cfg (libfull2 forged_cfg) no_url no_lint bot (3 + k) forged_prog 0%nat [] None UHost forged_w1)
+    with (exec_body forged_cfg no_url no_lint
+            (fun e' loc' bi' um' w' => evalB forged_cfg (libfull2 forged_cfg) no_url no_lint bot (S (S k)) e' loc' bi' um' w')
+            (fun c' p' k' l' um' w' => execB forged_cfg (libfull2 forged_cfg) no_url no_lint bot (S (S k)) c' p' k' l' um' w')
+            forged_prog 0%nat [] None UHost forged_w1).
+  rewrite (forged_step _
+             (fun e' loc' bi' um' w' => evalB forged_cfg (libfull2 forged_cfg) no_url no_lint bot (S k) e' loc' bi' um' w')
+             (fun fv' a' um' w' => callB forged_cfg (libfull2 forged_cfg) no_url no_lint bot (S k) fv' a' um' w')
+             _ bot).
+  - reflexivity.
+  - intros. reflexivity.
+  - apply forged_call_loops; [exact Hb|reflexivity].
+  - exact Hb.
+Qed.
+
+(* the conclusion of the termination theorem fails for libfull2 in this world: the answer follows the depth-0 answer at every fuel *)
+Theorem libfull2_forged_world_never_terminates :
+  ~ exists fuel r, forall bot fuel', (fuel <= fuel')%nat ->
+      execute_script_bot forged_cfg (libfull2 forged_cfg) no_url no_lint bot fuel' forged_prog forged_world = r.
+Proof.
+  intros (fuel & r & H).
+  pose proof (H OFuel (3 + fuel)%nat ltac:(lia)) as H1. pose proof (H (OVal VNull) (3 + fuel)%nat ltac:(lia)) as H2.
+  rewrite (forged_run OFuel fuel Logic.I) in H1. rewrite (forged_run (OVal VNull) fuel Logic.I) in H2.
+  rewrite <- H2 in H1. discriminate H1.
+Qed.
+
+(* hence no measure / answer predicate makes the generalised premise true of libfull2 *)
+Corollary libfull2_not_wf mu Post : ~ (lib_post (libfull2 forged_cfg) Post /\ lib_wf (libfull2 forged_cfg) mu Post).
+Proof.
+  intros [Hp Hw]. apply libfull2_forged_world_never_terminates.
+  apply (terminatesG forged_cfg (libfull2 forged_cfg) no_url no_lint mu Post ltac:(reflexivity) Hp Hw).
+Qed.
